@@ -18,7 +18,7 @@ package keeper
 // of the whole fee-collector balance into the distribution module.
 //@ define atMoved() = traceN() == old(traceN()) + 1 && traceAt(old(traceN())) == mkEv(51, g("x/feedistribution/types.ModuleName"), 0)
 //@ func (Keeper).AllocateTokens
-//@   flag havoc=AllocateTokensToValidator
+//@   flag havoc=AllocateTokensToValidator,GetAllExocoreValidators,ValidatorByConsAddrForChainID
 //@   modifies state(ctx), trace, heap["x/feedistribution/types.FeePool"]
 //@   before[C17.at.whole]  SendCoinsFromModuleToModule requires arg_amt == res_GetAllBalances_0 && arg_senderModule == k.feeCollectorName &&
 //@        arg_recipientModule == g("x/feedistribution/types.ModuleName") && traceN() == old(traceN())
